@@ -1,16 +1,20 @@
 #!/bin/sh
 # usage: sweep.sh <out-log> <seed> [<seed> ...]
-# Runs every claimed check for each seed with a *copy* of the current simulator binary (so that later edits or
+# Runs every claimed check for each seed with *copies* of the current simulator binaries (so that later edits or
 # seeded patches in /repo do not leak into a running sweep); evidence and replays go to a scratch directory.
 out="$1"; shift
-bin=/tmp/mlsim_sweep.$$
+bin=/tmp/mlsim_sweep.$$; bin2=/tmp/mlsim_sr_sweep.$$
 cp /verif/sim/target/release/mlsim $bin || exit 2
+cp /verif/sim/target/release/mlsim-sr $bin2 || exit 2
 for s in "$@"; do
   for P in C01 C02 C03 C04 C05 C06 C07 C08 C09 C10 C11 C12 C13 C14 C15 C16 C17 C18 C19; do
-    r=$(cd /verif/sim && VERIF_SEED=$s VERIF_DIR=/tmp/vt_sweep VERIF_JOBS=${VERIF_JOBS:-16} $bin check $P --tier ${TIER:-quick} 2>&1)
-    rc=$?
-    echo "seed=$s $P rc=$rc $(echo "$r" | grep -E 'VIOLATION|HARNESS' | head -2 | tr '\n' ' ') $(echo "$r" | grep -E 'signature=' | head -1) $(echo "$r" | grep -oE '[0-9]+ runs in [0-9.]+s')" >> "$out"
+    for b in $bin $bin2; do
+      if [ $b = $bin2 ]; then extra="VERIF_SECONDARY=1 VERIF_RUN_FRACTION=4"; tag=sr; else extra=""; tag=default; fi
+      r=$(cd /verif/sim && env $extra VERIF_SEED=$s VERIF_DIR=/tmp/vt_sweep VERIF_JOBS=${VERIF_JOBS:-16} $b check $P --tier ${TIER:-quick} 2>&1)
+      rc=$?
+      echo "seed=$s $P $tag rc=$rc $(echo "$r" | grep -E 'VIOLATION|HARNESS' | head -2 | tr '\n' ' ') $(echo "$r" | grep -E 'signature=' | head -1) $(echo "$r" | grep -oE '[0-9]+ runs in [0-9.]+s')" >> "$out"
+    done
   done
 done
-rm -f $bin
+rm -f $bin $bin2
 echo done >> "$out"
